@@ -76,8 +76,13 @@ def run(ctx, rep):
                                                              pr[0][1] in walk_calls(x.ast.body)][0].id, sim[0][0].id)
     if good:
         lp = [x for x in walk_nodes(call.node.body, ast.For) if pr[0][1] in walk_calls(x.body)][0]
+        a = pr[0][1].args
+        # the scheduled triple is passed on whole: `*_removal`, or the three names of an unpacking loop target
+        whole = (len(a) == 2 and utext(a[1]) == "*" + utext(lp.target)) or (
+            isinstance(lp.target, ast.Tuple) and [utext(x) for x in a[1:]] == [utext(e) for e in lp.target.elts]
+            and len(lp.target.elts) == 3)
         good = utext(lp.iter) == "runner_removals" and not loop_body_exits_early(lp) and \
-            utext(pr[0][1].args[0]) == "market" and utext(pr[0][1].args[1]) == "*" + utext(lp.target)
+            utext(a[0]) == "market" and whole and not pr[0][1].keywords
     if good:
         lpn = [x for x in cfg.live_nodes() if x.kind == "for_init" and x.ast is lp][0]
         good = cfg.unconditional(lpn.id)
